@@ -415,7 +415,9 @@ func (r *syncRun) deliver(f *syncFollower, kind string, batch []elem) bool {
 	desc := fmt.Sprintf("kind=%s batch=[%s] frontier-before=%d:%s", kind, strings.Join(toks, " "), len(before), h8e(before[len(before)-1]))
 	ok := true
 
-	// M0: the call must not panic (a panic on the downloader/fetcher goroutine kills the process)
+	// M0: the call must not panic (a panic on the downloader/fetcher goroutine kills the process). The classes empty-batch and
+	//     nil-target are the former finding F7c (repaired in 264f72a): the inputs are delivered on every run (part 1c), and a
+	//     panic on them is a violation again.
 	if pn != nil {
 		pclass := "other"
 		ps := fmt.Sprint(pn)
@@ -429,6 +431,11 @@ func (r *syncRun) deliver(f *syncFollower, kind string, batch []elem) bool {
 		if pclass == "other" {
 			ok = false
 		}
+	}
+	// M0b: an empty batch is a no-op
+	if pn == nil && len(batch) == 0 && (err != nil || idx != 0 || !sameHashes(before, after)) {
+		c.Fail("C16 class=empty-batch-not-noop InsertChain of an empty batch returned (%d, %v), chain %d -> %d; %s", idx, err, len(before), len(after), desc)
+		ok = false
 	}
 	// M1: the node never holds an element that is not byte-identical to one the producer made (only the
 	//     pillars' keys can make a momentum that passes verification), and its chain links.
@@ -465,7 +472,7 @@ func (r *syncRun) deliver(f *syncFollower, kind string, batch []elem) bool {
 	if pn == nil && ok {
 		if err == nil && len(batch) > 0 {
 			last := batch[len(batch)-1].dm.Momentum
-			if int(last.Height) > len(after) || after[last.Height-1] != last.Hash {
+			if last.Height == 0 || last.Height > uint64(len(after)) || after[last.Height-1] != last.Hash {
 				c.Fail("C16 class=nil-but-not-inserted InsertChain returned nil but the last delivered momentum %d:%s is not on the chain; %s", last.Height, h8e(last.Hash), desc)
 				ok = false
 			}
@@ -782,7 +789,41 @@ func init() {
 			f.stop()
 		}
 
-		// ---- part 2: directed sweep: every corruption kind at first / last / middle position, on an
+		// ---- part 1c: directed, on every run: the batches that used to panic inside InsertChain (F7c, repaired in 264f72a) — the
+	//      empty batch; a first unknown momentum at frontier+2 and above (genuine momentums with a gap, and a fabricated one);
+	//      a head claiming height 0; a head claiming height 1 with a hash other than genesis. On a follower in the middle of the
+	//      trunk and on a follower that holds nothing but its genesis momentum.
+	for _, pos := range []int{L - 20, 1} {
+		f := r.newFollower()
+		if r.syncTo(f, 0, pos) {
+			trunk := hist.paths[0]
+			good := true
+			step := func(hit string, kind string, b []elem) {
+				if !good {
+					return
+				}
+				c.Hit("directed-" + hit)
+				good = r.deliver(f, kind, b)
+			}
+			step("empty-batch", "empty", nil)
+			step("above-frontier-gap1", "gap-above-frontier", r.seg(trunk, pos+2, pos+4))
+			step("above-frontier-gap5", "gap-above-frontier", r.seg(trunk, pos+6, pos+6))
+			step("above-frontier-overlap", "gap-above-frontier-overlap", append(r.seg(trunk, imax(pos-1, 1), pos), r.seg(trunk, pos+2, pos+3)...))
+			step("fabricated-above", "fabricated-above", r.fabricated(f.hashes(), 2, uint64(pos+2)))
+			step("fabricated-far-above", "fabricated-above", r.fabricated(f.hashes(), 2, 1<<62))
+			step("fabricated-height0", "fabricated-height0", r.fabricated(f.hashes(), 0, 0))
+			step("fabricated-height1", "fabricated-height1", r.fabricated(f.hashes(), 1, 1))
+			step("fabricated-height0-then-genuine", "fabricated-height0", append(r.fabricated(f.hashes(), 0, 0), r.seg(trunk, pos+1, pos+2)...))
+			// after all of that the node still takes the honest continuation
+			step("extension-after-refusals", "extend", r.seg(trunk, pos+1, pos+3))
+			if good {
+				r.reverify(f)
+			}
+		}
+		f.stop()
+	}
+
+	// ---- part 2: directed sweep: every corruption kind at first / last / middle position, on an
 		//      extension (with a known prefix in front, so the index offset matters) and on a side chain
 		for pi, pos := range []int{0, 1, 2} {
 			for ki, ck := range corruptKinds {
@@ -935,6 +976,13 @@ func (r *syncRun) randomOp(f *syncFollower) bool {
 	default: // fabricated heads: height 0, height 1, unknown parent, claimed fork without any valid content
 		return r.fabricatedOp(f, cur)
 	}
+}
+
+func imax(a, b int) int {
+	if a > b {
+		return a
+	}
+	return b
 }
 
 func imin(a, b int) int {
@@ -1100,29 +1148,46 @@ func (r *syncRun) siblingOp(f *syncFollower, cur []types.Hash) bool {
 	return r.deliver(f, "empty", nil)
 }
 
+// fabricated builds a one-element batch from a copy of the frontier momentum with another hash and the given claimed height
+// (variant 0: height 0, 1: height 1, 2: the given height above the frontier).
+func (r *syncRun) fabricated(cur []types.Hash, variant int, height uint64) []elem {
+	base := r.hist.dm(cur[len(cur)-1])
+	m := base.Momentum
+	m.Hash[0] ^= 0xff
+	m.Hash[9] ^= byte(1 + r.c.R.Intn(255))
+	switch variant {
+	case 0:
+		m.Height = 0
+	case 1:
+		m.Height = 1
+	default:
+		m.Height = height
+	}
+	return []elem{{dm: base, valid: false, note: "fabricated"}}
+}
+
 // fabricatedOp: heads no honest node would send.
 func (r *syncRun) fabricatedOp(f *syncFollower, cur []types.Hash) bool {
 	c := r.c
 	H := len(cur)
-	base := r.hist.dm(cur[H-1]) // copy of the frontier as raw material
 	if H == 1 {
 		return r.deliver(f, "empty", nil)
 	}
+	switch c.R.Intn(5) {
+	case 0:
+		return r.deliver(f, "fabricated-height0", r.fabricated(cur, 0, 0))
+	case 1:
+		return r.deliver(f, "fabricated-height1", r.fabricated(cur, 1, 1))
+	case 2:
+		return r.deliver(f, "fabricated-above", r.fabricated(cur, 2, uint64(H+2+c.R.Intn(1000))))
+	}
+	base := r.hist.dm(cur[H-1]) // copy of the frontier as raw material
 	m := base.Momentum
 	m.Hash[0] ^= 0xff
 	m.Hash[9] ^= byte(1 + c.R.Intn(255))
 	e := elem{dm: base, valid: false, note: "fabricated"}
-	switch c.R.Intn(5) {
+	switch c.R.Intn(2) {
 	case 0:
-		m.Height = 0
-		return r.deliver(f, "fabricated-height0", []elem{e})
-	case 1:
-		m.Height = 1
-		return r.deliver(f, "fabricated-height1", []elem{e})
-	case 2:
-		m.Height = uint64(H + 2 + c.R.Intn(1000))
-		return r.deliver(f, "fabricated-above", []elem{e})
-	case 3:
 		// claims to extend an own momentum `d` below the frontier, claims a greater height at its tail, nothing verifies
 		d := 1 + c.R.Intn(imin(H-1, 34))
 		m.Height = uint64(H - d + 1)
